@@ -117,6 +117,24 @@ def generate_sections(ctx):
                         want = tuple(want)
                     run.oblige("field." + k, veq(got, want), kind="post")
             ctx.explore("config_parser.%s[%s]" % (fn, label), thunk, PS)
+        if fn == "_parse_met":
+            # time series: every forcing field given as a list of symbolic length (all lengths >= 0, incl. one-element
+            # lists) reaches MetConfig as that list -- the parser neither reorders, unwraps nor broadcasts
+            def thunk_series(run, clsname=clsname, keys=keys, PS=PS):
+                run.scope = "config_parser._parse_met[series]"
+                run.props = set(PS)
+                d = {k: raw_value("list" if k != "z0" else "real", k) for k in keys}
+                for k in keys:
+                    if k != "z0":
+                        run.assume(d[k].length >= 0)
+                obj = harness.call(run, ns["_parse_met"], d).value
+                cls = ns[clsname]
+                run.oblige("returns-" + clsname, SBool(isinstance(obj, cls)), kind="post")
+                if isinstance(obj, cls):
+                    for k in keys:
+                        got = getattr(obj, k)
+                        run.oblige("series-field-is-the-given-list." + k, SBool(got is d[k]) | veq(got, d[k]), kind="post")
+            ctx.explore("config_parser._parse_met[series]", thunk_series, PS)
     if not ctx.wants(PROPS):
         return
     for fn in ("_parse_solver", "_parse_output", "_parse_parallel"):
